@@ -79,18 +79,7 @@ func (t *c14CV) Build() value.Value {
 		for i, it := range t.Items {
 			items[i] = it.Build()
 		}
-		switch t.Repr {
-		case "lazy":
-			return mustEval("l.map(e->e)", []string{"l"}, value.NewList(items...))
-		case "append":
-			if len(items) > 0 {
-				return mustEval("l.append(x)", []string{"l", "x"}, value.NewList(items[:len(items)-1]...), items[len(items)-1])
-			}
-		case "concat":
-			k := len(items) / 2
-			return mustEval("a+b", []string{"a", "b"}, value.NewList(items[:k]...), value.NewList(items[k:]...))
-		}
-		return value.NewList(items...)
+		return c14BuildList(t.Repr, items)
 	case "map":
 		vals := make([]value.Value, len(t.Items))
 		for i, it := range t.Items {
@@ -119,6 +108,91 @@ func (t *c14CV) Build() value.Value {
 		return mk(n)
 	}
 	panic("bad kind " + t.Kind)
+}
+
+// the un-evaluated list representations: every one denotes exactly the list of items.
+// "map:<r>" is map(e->e) over representation r (a size hint of r is inherited).
+var c14ListReprs = []string{"eager", "lazy", "append", "concat", "accept", "acceptdrop", "skip", "topeq", "topmore", "topmore-unsized", "topeq-unsized", "combine"}
+
+func c14AllListReprs() []string {
+	rs := append([]string{}, c14ListReprs...)
+	for _, r := range c14ListReprs {
+		if r != "eager" {
+			rs = append(rs, "map:"+r)
+		}
+	}
+	return append(rs, "map:eager")
+}
+
+func c14BuildList(repr string, items []value.Value) value.Value {
+	dummy := value.String("\x00dummy")
+	l1 := []string{"l"}
+	ln := []string{"l", "n"}
+	if rest, ok := strings.CutPrefix(repr, "map:"); ok {
+		return mustEval("l.map(e->e)", l1, c14BuildList(rest, items))
+	}
+	switch repr {
+	case "lazy":
+		return mustEval("l.map(e->e)", l1, value.NewList(items...))
+	case "append":
+		if len(items) > 0 {
+			return mustEval("l.append(x)", []string{"l", "x"}, value.NewList(items[:len(items)-1]...), items[len(items)-1])
+		}
+	case "concat":
+		k := len(items) / 2
+		return mustEval("a+b", []string{"a", "b"}, value.NewList(items[:k]...), value.NewList(items[k:]...))
+	case "accept":
+		return mustEval("l.accept(x->true)", l1, value.NewList(items...))
+	case "acceptdrop":
+		// [[false,d],[true,x1],..,[true,xn],[false,d]].accept(p->p[0]).map(p->p[1]): leading and trailing items dropped
+		ps := []value.Value{value.NewList(value.Bool(false), dummy)}
+		for _, it := range items {
+			ps = append(ps, value.NewList(value.Bool(true), it))
+		}
+		ps = append(ps, value.NewList(value.Bool(false), dummy))
+		return mustEval("l.accept(p->p[0]).map(p->p[1])", l1, value.NewList(ps...))
+	case "skip":
+		return mustEval("l.skip(2)", l1, value.NewList(append([]value.Value{dummy, dummy}, items...)...))
+	case "topeq":
+		return mustEval("l.top(n)", ln, value.NewList(items...), value.Int(len(items)))
+	case "topmore":
+		return mustEval("l.top(n)", ln, value.NewList(items...), value.Int(len(items)+3))
+	case "topeq-unsized":
+		return mustEval("l.accept(x->true).top(n)", ln, value.NewList(items...), value.Int(len(items)))
+	case "topmore-unsized":
+		return mustEval("l.accept(x->true).top(n)", ln, value.NewList(items...), value.Int(len(items)+3))
+	case "combine":
+		return mustEval("l.combine((a,b)->a)", l1, value.NewList(append(append([]value.Value{}, items...), dummy)...))
+	}
+	return value.NewList(items...)
+}
+
+// the same abstract value with every list down to nesting depth 2 in representation repr
+func (t *c14CV) withRepr(repr string, depth int) *c14CV {
+	c := *t
+	if t.Kind == "list" && depth <= 2 {
+		c.Repr = repr
+	}
+	c.Items = make([]*c14CV, len(t.Items))
+	for i, it := range t.Items {
+		c.Items[i] = it.withRepr(repr, depth+1)
+	}
+	return &c
+}
+
+func (t *c14CV) hasListWithin(depth int) bool {
+	if t.Kind == "list" {
+		return true
+	}
+	if depth >= 2 {
+		return false
+	}
+	for _, it := range t.Items {
+		if it.hasListWithin(depth + 1) {
+			return true
+		}
+	}
+	return false
 }
 
 func (t *c14CV) Depth() int {
@@ -369,6 +443,10 @@ func c14CuratedPool() []c14PoolEntry {
 		c14CMap("listmap", "m", c14CMap("listmap", "a", c14CInt(1), "b", c14CStr("x"))), c14CMap("listmap", "m", c14CMap("listmap", "b", c14CInt(1), "a", c14CInt(2))),
 		c14CMap("listmap", "a", c14CList("eager", c14CInt(1))), c14CMap("put", "a", c14CList("lazy", c14CFloat(1))),
 		c14CMap("listmap", "", c14CInt(0)), c14CMap("listmap", "ä", c14CStr("ä")), c14CMap("listmap", "a", c14CFloat(math.NaN())), c14CMap("listmap", "a", c14CClo(1)))
+	// a list inside a map inside a list, and the map alone: {k:l} ~ [{k:r}]
+	add(false, c14CMap("listmap", "k", c14CList("eager", c14CInt(1), c14CInt(2))),
+		c14CList("eager", c14CMap("listmap", "k", c14CList("eager", c14CInt(1), c14CInt(2)))),
+		c14CList("eager", c14CList("eager", c14CInt(1), c14CInt(2)), c14CList("eager")))
 	// closures
 	add(false, c14CClo(1), c14CClo(2))
 	return p
@@ -549,6 +627,9 @@ type c14Run struct {
 	pool []*c14CV
 	term []string // Coq term of pool[i] with sorted maps: identifies which operand min/max/order returned
 	human []string
+	ov    map[int]*c14CV      // representation variants of pool values for the case being run
+	ovPos []*c14CV            // the same by operand position (a pair may use one pool value in two representations)
+	base  map[[2]int][]string // answers of the pool's own representations, per ordered pair: the reference for the variants
 }
 
 func c14Kinds(vs ...*c14CV) string {
@@ -560,6 +641,13 @@ func c14Kinds(vs ...*c14CV) string {
 }
 
 func (r *c14Run) nextID() int { r.id++; return r.id }
+
+func (r *c14Run) op(i int) *c14CV {
+	if v, ok := r.ov[i]; ok {
+		return v
+	}
+	return r.pool[i]
+}
 
 func (r *c14Run) violation(id int, op, law string, what string, human map[string]any, expected, observed string, vs ...*c14CV) {
 	h := map[string]any{}
@@ -578,8 +666,14 @@ func (r *c14Run) record(id int, typ string, defaultSig string, idx []int, desc s
 	vals := make([]*c14CV, len(idx))
 	hs := make([]string, len(idx))
 	for n, i := range idx {
-		vals[n] = r.pool[i]
+		vals[n] = r.op(i)
 		hs[n] = r.human[i]
+		if n < len(r.ovPos) {
+			vals[n] = r.ovPos[n]
+		}
+		if vals[n] != r.pool[i] {
+			hs[n] = vals[n].Human()
+		}
 	}
 	repro, _ := json.Marshal(map[string]any{"type": typ, "values": vals})
 	human := map[string]any{"operands": strings.Join(hs, "  |  "), "repro": string(repro), "signature": defaultSig}
@@ -752,19 +846,57 @@ func (r *c14Run) pickLaw(id int, human map[string]any, name string, observed str
 }
 
 func (r *c14Run) pairCase(i, j int, lt, eq [][]string) {
-	a, b := r.pool[i], r.pool[j]
+	r.pairCaseV(i, j, r.pool[i], r.pool[j], lt, eq)
+}
+
+// representation variant of the pair (i,j): a and b denote the same abstract values as pool[i], pool[j];
+// the case handed to Coq is the same CPair (the model has no representations), and the answers must be
+// those of the pool's own representations
+func (r *c14Run) pairVariant(i, j int, ra, rb string, lt, eq [][]string) {
+	a, b := r.pool[i].withRepr(ra, 0), r.pool[j].withRepr(rb, 0)
+	r.ov = map[int]*c14CV{i: a}
+	if i != j {
+		r.ov[j] = b
+	}
+	r.ovPos = []*c14CV{a, b}
+	r.sum.Count("variant_pairs", map[bool]string{true: "same abstract value", false: "different values"}[i == j])
+	r.pairCaseV(i, j, a, b, lt, eq)
+	r.ov, r.ovPos = nil, nil
+}
+
+func (r *c14Run) pairCaseV(i, j int, a, b *c14CV, lt, eq [][]string) {
+	variant := a != r.pool[i] || b != r.pool[j]
 	oab := c14DirObs(a, b)
 	oba := oab
-	if i != j {
+	if i != j || variant {
 		oba = c14DirObs(b, a)
 	}
-	lt[i][j], lt[j][i], eq[i][j], eq[j][i] = oab[2], oba[2], oab[0], oba[0]
+	if !variant {
+		lt[i][j], lt[j][i], eq[i][j], eq[j][i] = oab[2], oba[2], oab[0], oba[0]
+		r.base[[2]int{i, j}], r.base[[2]int{j, i}] = oab, oba
+	}
 	id := r.nextID()
 	sum := r.sum
 	sum.Evaluations += 2 * len(oab)
 	desc := fmt.Sprintf("= != < > <= >= min max switch order: a,b -> %v ; b,a -> %v", oab, oba)
 	human := r.record(id, "pair", "pair/"+c14Kinds(a, b)+"/spec", []int{i, j}, desc)
 	r.cw.Add(fmt.Sprintf("CPair %d %d %d %s %s", id, i, j, r.compact(oab, []int{i, j}), r.compact(oba, []int{j, i})))
+	if variant {
+		opn := []string{"=", "!=", "<", ">", "<=", ">=", "min", "max", "switch", "order"}
+		for d, o := range [][]string{oab, oba} {
+			ref := r.base[[2]int{i, j}]
+			x, y := a, b
+			if d == 1 {
+				ref, x, y = r.base[[2]int{j, i}], b, a
+			}
+			for n := range o {
+				if ref != nil && o[n] != ref[n] {
+					r.violation(id, opn[n], "representation", fmt.Sprintf("%s on %s , %s answers %s, on the same values in the pool's representation %s", opn[n], x.Human(), y.Human(), o[n], ref[n]), human, ref[n], o[n], x, y)
+					break
+				}
+			}
+		}
+	}
 	sum.Count("pair_kinds", c14Kinds(a, b))
 	sum.Count("pair_depth", fmt.Sprintf("%d,%d", a.Depth(), b.Depth()))
 	sum.Count("eq_outcome", oab[0])
@@ -776,7 +908,7 @@ func (r *c14Run) pairCase(i, j int, lt, eq [][]string) {
 	for d := 0; d < 2; d++ {
 		x, y, o, o2 := a, b, oab, oba
 		if d == 1 {
-			if i == j {
+			if i == j && !variant {
 				break
 			}
 			x, y, o, o2 = b, a, oba, oab
@@ -827,6 +959,7 @@ func (r *c14Run) pairCase(i, j int, lt, eq [][]string) {
 		if i != j {
 			r.orderLaw(id, human, o[9], idx, ltf)
 		}
+		_ = variant
 	}
 }
 
@@ -840,8 +973,22 @@ func c14FirstDecisive(eqs []string) string {
 	return c14OF
 }
 
+func (r *c14Run) memVariant(i, j int, ra, rb string) {
+	r.ov = map[int]*c14CV{i: r.pool[i].withRepr(ra, 0)}
+	if i != j {
+		r.ov[j] = r.pool[j].withRepr(rb, 0)
+	}
+	r.ovPos = []*c14CV{r.pool[i].withRepr(ra, 0), r.pool[j].withRepr(rb, 0)}
+	r.sum.Count("variant_mem", "x ~ y in other representations")
+	r.memCase(i, j)
+	r.ov, r.ovPos = nil, nil
+}
+
 func (r *c14Run) memCase(i, j int) {
-	a, b := r.pool[i], r.pool[j]
+	a, b := r.op(i), r.op(j)
+	if len(r.ovPos) == 2 {
+		a, b = r.ovPos[0], r.ovPos[1]
+	}
 	o, present := c14MemObs(a, b)
 	id := r.nextID()
 	r.sum.Evaluations++
@@ -984,7 +1131,7 @@ func cmdC14(seed int64, tier, outDir string) {
 	sum := NewSummary("C14", seed, tier)
 	sum.Rule = "curated pool (ints around 0, +-1, +-(2^53-1), 2^53; floats +-0, +-inf, NaN, halves, neighbours of ints; strings incl. empty, prefixes, non-ASCII, astral, NUL; bools; nested lists in 4 representations; maps in 3 representations and different key orders; closures) plus random nested values and their numerically-equal twins: ALL unordered pairs x (= != < > <= >= min max switch order in both directions), ALL ordered pairs for ~, triples (exhaustive over the core subset + random) for transitivity, 3-argument min/max/order, 2-case switch, x~[y,z]; operands are rebuilt for every evaluation and passed as arguments to functions generated by value.New(). non-trivial = pair of different c14Kinds or nesting depth >= 2, membership in a non-empty list (or with a non-list left operand), triple with a<b<c or a=b=c; distinct by operand terms"
 	cw := NewCaseWriter(outDir, "From P2 Require Import Base.Prelude Sem.Num Sem.Syntax Sem.Ops Sem.OpsSpec Run.C14Run.", "c14_case", "c14_id", "(c14_im pool)", "(c14_is pool)", 4000)
-	run := &c14Run{sum: sum, cw: cw}
+	run := &c14Run{sum: sum, cw: cw, base: map[[2]int][]string{}}
 	finish := func() {
 		cw.Flush()
 		sum.CaseFiles = cw.files
@@ -1093,6 +1240,82 @@ func cmdC14(seed int64, tier, outDir string) {
 	for i := 0; i < n; i++ {
 		for j := 0; j < n; j++ {
 			run.memCase(i, j)
+		}
+	}
+	// ---- representation independence: the same abstract values with their lists (down to depth 2) in every
+	// un-evaluated representation; operands are rebuilt for every evaluation, so they stay un-evaluated
+	reprs := c14AllListReprs()
+	st0 := funcGen.NewEmptyStack[value.Value]()
+	for _, rp := range reprs {
+		for _, items := range [][]value.Value{{}, {value.Int(1)}, {value.Int(1), value.Int(2), value.Int(3)}} {
+			l := c14BuildList(rp, items).(*value.List)
+			hint, known := l.SizeIfKnown()
+			state := fmt.Sprintf("present=%v sizeKnown=%v", value.VerifItemsPresent(l), known)
+			if known {
+				if n, err := l.Size(st0); err == nil {
+					state += fmt.Sprintf(" hintExact=%v", n == hint)
+				}
+			}
+			sum.Count("list_state:"+rp, state)
+		}
+	}
+	var withLists, coreLists []int
+	for i, v := range pool {
+		if i < sum.Extra["curated_pool_size"].(int) && v.hasListWithin(0) && !strings.Contains(v.Human(), "closure") {
+			withLists = append(withLists, i)
+			if len(coreLists) < 9 && i >= len(corpus) && (v.Depth() >= 2 || len(v.Items) >= 1) && i%2 == 0 {
+				coreLists = append(coreLists, i)
+			}
+		}
+	}
+	sum.Extra["values_with_lists"] = len(withLists)
+	sum.Extra["list_representations"] = len(reprs)
+	nPer, nDiff := 40*optBoost, 2
+	if tier == "thorough" {
+		coreLists = withLists
+		nPer, nDiff = 0, 12
+	}
+	isCore := map[int]bool{}
+	for _, i := range coreLists { // the same abstract value: representation x representation, exhaustive
+		isCore[i] = true
+		for _, ra := range reprs {
+			for _, rb := range reprs {
+				run.pairVariant(i, i, ra, rb, lt, eq)
+			}
+		}
+	}
+	for _, i := range withLists {
+		if isCore[i] {
+			continue
+		}
+		for _, ra := range reprs { // every representation against the pool's own and against one other
+			run.pairVariant(i, i, ra, pool[i].Repr, lt, eq)
+			run.pairVariant(i, i, ra, reprs[rg.Pick(len(reprs))], lt, eq)
+		}
+		for t := 0; t < nPer; t++ {
+			run.pairVariant(i, i, reprs[rg.Pick(len(reprs))], reprs[rg.Pick(len(reprs))], lt, eq)
+		}
+	}
+	for x, i := range withLists { // different values (prefixes, permutations, other kinds of elements)
+		for _, j := range withLists[x+1:] {
+			for t := 0; t < nDiff; t++ {
+				run.pairVariant(i, j, reprs[rg.Pick(len(reprs))], reprs[rg.Pick(len(reprs))], lt, eq)
+			}
+		}
+	}
+	for _, j := range withLists { // x ~ l with l (and x) in every representation
+		if pool[j].Kind != "list" {
+			continue
+		}
+		for _, rb := range reprs {
+			for _, i := range withLists {
+				if i == j || rg.Chance(0.25) {
+					run.memVariant(i, j, reprs[rg.Pick(len(reprs))], rb)
+				}
+			}
+			for t := 0; t < 4; t++ {
+				run.memVariant(rg.Pick(n), j, "eager", rb)
+			}
 		}
 	}
 	// triples: exhaustive over the core subset, random over the whole pool
